@@ -114,17 +114,14 @@ def affine(e, var=None):
         a, b = affine(e.left), affine(e.right)
         if a is None or b is None:
             return None
-        if set(a) <= {''}:
-            c = a.get('', 0)
-            return {k: v * c for k, v in b.items() if v * c != 0 or k == ''}
-        if set(b) <= {''}:
-            c = b.get('', 0)
-            return {k: v * c for k, v in a.items() if v * c != 0 or k == ''}
-        # product of two single terms: a*b as an opaque symmetric term
-        if len(a) == 1 and len(b) == 1 and '' not in a and '' not in b:
-            (ka, va), (kb, vb) = list(a.items())[0], list(b.items())[0]
-            return {'*'.join(sorted([ka, kb])): va * vb}
-        return None
+        # polynomial product: monomials are '*'-joined sorted factor texts ('' is the unit)
+        out = {}
+        for ka, va in a.items():
+            for kb, vb in b.items():
+                fs = sorted([x for x in ka.split('*') if x] + [x for x in kb.split('*') if x])
+                k = '*'.join(fs)
+                out[k] = out.get(k, 0) + va * vb
+        return {k: v for k, v in out.items() if v != 0 or k == ''}
     if isinstance(e, (ast.Name, ast.Attribute, ast.Subscript, ast.Call)):
         return {norm(e): 1}
     return None
